@@ -44,3 +44,5 @@ RULES
  - Disk/time: remove scratch files you create under /tmp when done. Keep going until the deliverables are complete and robust; depth of the theorems matters more than breadth of prose.
 
 FINAL REPORT (your last message, concise): files created; list of theorems in Props/C05.v with one line each (full / partial / refuted); what ties the model to the code and the measured volumes/timings; mutations tried and which were caught (and how); findings on the unchanged tree with witnesses and proposed patches; anything in DESIGN.md's C05 section that turned out wrong or infeasible.
+
+NOTE ON THE ASSIGNMENT SOLVER (applies to the unordered case). The solver is already modelled: coq/Model/Munkres.v is a generic, executable transcription of munkres.py (`compute K zero add sub ltb eqb maxsize`), instantiated at Z (`computeZ`) and PrimFloat; its correctness statement is `munkres_partial_correct_statement` in coq/Proofs/MunkresSpec.v (a complete minimum-cost matching whenever it returns) and is being proved by another engineer in coq/Proofs/MunkresCorrect.v (not yet available; do not wait for it and do not edit those files). For your model: instantiate the generic `compute` at Q yourself (costs `1 - grade`, `Qeq_bool`/`Qlt`-based comparisons, maxsize 9223372036854775807) so that your model is executable, and state your optimality theorems inside a `Section` with an explicit hypothesis saying that the solver you call returns a complete maximum-total-credit (= minimum-total-cost) one-to-one assignment — phrased over your own Q cost matrix — so that the theorems come out as explicit implications `forall solve, solver_optimal solve -> …`; name that hypothesis in TRUSTED/ASSUMPTIONS as "discharged for integer costs by C06's munkres_partial_correct; the transfer to rational costs (scale invariance of the solver) is validated by correspondence, not proved". Everything else (padding, surplus penalty, consolidation, positions, zeroing, best list) must be proved outright.
